@@ -1,7 +1,7 @@
 SPECIFICATION Spec
 CONSTANTS
   MaxLen = 7
-  Atoms = {"G1", "p", "p:", "{", "}", ";", "(", ")"}
+  Atoms = {"G1", "p", "p:", "{", "}", ";", "f(", ")"}
   Emit = TRUE
   EmitOneIn = 6
 INVARIANTS Inv_Syntax Inv_Stop Inv_Emit
